@@ -68,11 +68,11 @@ Fixpoint dec_items (l : list sx) : option (list item * option N) :=
       end
   end.
 Record rinput := { r_component : bool; r_inb : N; r_wfail : nat -> bool; r_items : list item;
-                   r_handover : option N }.
+                   r_handover : option N;
+                   r_noerr : bool (* the client was created without an error callback: nothing to observe of [AErrCall] *) }.
 
 Definition dec_input (x : sx) : option rinput :=
-  match x with
-  | SL [comp; inb; wf; items] =>
+  let go comp inb wf items noerr :=
       do c <- as_b comp; do i <- as_n inb;
       do w <- match wf with
               | SL [idx; from] => do ix <- as_list as_nat idx; do f <- as_nat from; Some (fault_oracle ix f)
@@ -80,7 +80,11 @@ Definition dec_input (x : sx) : option rinput :=
               end;
       do xs <- as_l items;
       do lh <- dec_items xs;
-      Some {| r_component := c; r_inb := i; r_wfail := w; r_items := fst lh; r_handover := snd lh |}
+      Some {| r_component := c; r_inb := i; r_wfail := w; r_items := fst lh; r_handover := snd lh;
+              r_noerr := noerr |} in
+  match x with
+  | SL [comp; inb; wf; items] => go comp inb wf items false
+  | SL [comp; inb; wf; items; SL [ne]] => do n <- as_b ne; go comp inb wf items n
   | _ => None
   end.
 
@@ -98,13 +102,18 @@ Definition partition_routes (l : list sx) : list sx :=
   map (fun t => SL [SZ t; SZ (Z.of_nat (length (filter (tag_is t) l)))]) [2; 3; 4; 5; 6; 7; 8; 9]%Z.
 
 Definition run_typed (i : rinput) : sx :=
-  let tr := if r_component i then precv (r_items i)
+  let tr := if r_component i
+            then match r_handover i with
+                 | Some t => precv_handover t (r_items i)
+                 | None => precv (r_items i)
+                 end
             else match r_handover i with
                  | Some t => crecv_handover t (r_inb i) 0 (r_wfail i) (r_items i)
                  | None => crecv (r_inb i) 0 (r_wfail i) (r_items i)
                  end in
   (* third component: goroutines of the library left after the loop ended; the model's
      threads all terminate (crecv/precv are structurally recursive), so 0 *)
+  let tr := if r_noerr i then filter (fun a => match a with AErrCall => false | _ => true end) tr else tr in
   SL [SL (if r_component i then partition_routes (sync_list tr) else sync_list tr);
       SL (flat_map async_sx tr); SZ 0].
 
